@@ -294,6 +294,9 @@ class TlSchemas:
                         i += 4
                         result[field] = []
                         for _ in range(length):
+                            if i >= len(data):
+                                # the count field is attacker-controlled: never loop past the end of the input
+                                raise TlError('vector length exceeds the data provided')
                             if sch:
                                 deser, j = self.deserialize(data[i:], False, sch.args)
                             else:
